@@ -190,11 +190,12 @@ fn sanitize_args(args: Vec<RawArg>) -> Result<Vec<CleanArg>, Option<String>> {
 
                 let first_code = first.kind().encode();
                 let last_code = last.kind().encode();
-                let amount = if last_code <= first_code {
+                // both ends are part of the list, and it may wrap around from v31 to v0
+                let amount = if last_code < first_code {
                     last_code + 32 - first_code
                 } else {
                     last_code - first_code
-                };
+                } + 1;
 
                 res.push(CleanArg::RegList {
                     span,
